@@ -7,7 +7,7 @@ include!("/verif/witness/c11_histories_common.rs");
 #[test]
 fn verif_witness() {
     let mut cases = 0usize;
-    for h in histories(3) {
+    for h in histories(if vw_thorough() { 4 } else { 3 }) {
         if is_clean(&h) { continue; }
         let (before, after) = run_history(&h);
         cases += 1;
